@@ -8,6 +8,11 @@
 (***************************************************************************)
 EXTENDS HalfAgg, CurveParams, Verif
 
+VARIABLES phase, cur, rec
+vars == << phase, cur, rec >>
+\* TLC evaluates every parameterless constant-level definition eagerly at start-up (in every run, whatever the cfg);
+\* the large case sets are therefore written as operators applied to a variable (state level: evaluated on use only)
+
 -----------------------------------------------------------------------------
 \* specified results of the API calls (field names = harness record fields)
 KeysOk(pks) == \A i \in 1..Len(pks) : ParseXOnly(pks[i])[1]
@@ -38,11 +43,12 @@ OutVerify(i) ==
 
 \* a whole schedule executed by the implementation on its own outputs: whatever the composition i.parts,
 \* the final bytes are the one-shot aggregate
+OutScheduleV(i, v) ==
+  [ pret |-> 1, rets |-> [j \in 1..Len(i.parts) |-> 1], ret |-> 1, guard |-> 1, len |-> 32 * (Len(i.pks) + 1),
+    agg |-> Aggregate(i.pks, i.msgs, i.sigs)[2], vret |-> v, icb |-> 0 ]
 OutSchedule(i) ==
   IF ~KeysOk(i.pks) THEN [ pret |-> 0, icb |-> 0 ]
-  ELSE LET a == Aggregate(i.pks, i.msgs, i.sigs)[2] IN
-       [ pret |-> 1, rets |-> [j \in 1..Len(i.parts) |-> 1], ret |-> 1, guard |-> 1, len |-> 32 * (Len(i.pks) + 1),
-         agg |-> a, vret |-> B2I(AggVerify(i.pks, i.msgs, a)), icb |-> 0 ]
+  ELSE OutScheduleV(i, B2I(AggVerify(i.pks, i.msgs, Aggregate(i.pks, i.msgs, i.sigs)[2])))
 
 Out(ev) == CASE ev.e = "HalfAggAggregate" -> OutAggregate(ev.in)
              [] ev.e = "HalfAggInc"       -> OutInc(ev.in)
@@ -98,16 +104,19 @@ NPool == IF Thorough THEN 0..64 ELSE 0..8
 FlipBits == 0..767                      \* every bit of an aggregate of two signatures
 MutKinds == 1..36
 
-Cases ==
+CasesAt(ph) ==
        { << "agg", n, v >> : n \in NPool, v \in 1..2 }
   \cup { << "ver", n, v >> : n \in NPool, v \in 1..2 }
   \cup UNION { { << "buflen", n, len >> : len \in 0..(32 * (n + 2)) } : n \in 0..8 }
   \cup { << "incbuf", nb, len >> : nb \in 0..3, len \in 0..160 }
-  \cup { << "vflip", bit >> : bit \in FlipBits }
-  \cup { << "vflipm", bit >> : bit \in { b \in 0..511 : Thorough \/ b % 4 = 1 } }
-  \cup { << "vflipk", bit >> : bit \in { b \in 0..511 : Thorough \/ b % 4 = 2 } }
-  \cup { << "vmut", n, v, kind, pos >> : n \in 2..3, v \in 1..2, kind \in MutKinds, pos \in 1..3 }
+  \cup { << "vflip", bit >> : bit \in { b \in FlipBits : Thorough \/ (b % 8) \in { 0, 7 } } }
+  \cup { << "vflipm", bit >> : bit \in { b \in 0..511 : Thorough \/ b % 8 = 1 } }
+  \cup { << "vflipk", bit >> : bit \in { b \in 0..511 : Thorough \/ b % 8 = 2 } }
+  \cup { << "vmut", 2, 1, kind, pos >> : kind \in MutKinds, pos \in 1..2 }
+  \cup { << "vmut", 3, 2, kind, pos >> : kind \in MutKinds, pos \in 1..3 }
+  \cup { << "vmut", n, v, kind, pos >> : n \in { 2, 3, 4 }, v \in 1..2, kind \in { k \in MutKinds : Thorough }, pos \in 1..4 }
   \cup { << "v0", kind >> : kind \in 1..9 }
+Cases == CasesAt(phase)
 
 \* the smallest x >= 1 that is the x coordinate of a curve point, and one that is not
 SmallLiftX == FromNat(CHOOSE x \in 1..60 : LiftX(FromNat(x))[1] /\ \A y \in 1..(x - 1) : ~LiftX(FromNat(y))[1])
@@ -168,7 +177,7 @@ ExpandV0(kind) ==
     [] kind = 6 -> HVW(<< >>, << >>, Zeros(31), 0)
     [] kind = 7 -> HVW(<< >>, << >>, Zeros(33), 0)
     [] kind = 8 -> HVW(<< >>, << >>, Zeros(64), 0)
-    [] kind = 9 -> HVW(<< >>, << >>, NBytes(Add(N, N)), 0)
+    [] kind = 9 -> HVW(<< >>, << >>, NBytes(Add(N, One)), 0)
 
 ExpandIncBuf(nb, len) ==
   LET sq == SeqV(1, 3)  pks == Pks(sq)  ms == Msgs(sq)  sigs == Sigs(sq)
@@ -179,16 +188,18 @@ ExpandIncBuf(nb, len) ==
 -----------------------------------------------------------------------------
 \* X: the small groups.  Every point of the subgroup, every scalar, every re-encoding class.
 SubgroupXs == { X32(PMulG(FromNat(j))) : j \in 1..(NN - 1) }
-TinyTrip == { << d, k, m >> : d \in 1..(NN - 1), k \in 1..(NN - 1), m \in 1..2 }
-FewDK == IF NN <= 13 THEN 1..(NN - 1) ELSE { 1, 2, NN \div 2, NN - 1 }
+\* d and n-d give the same x-only key (and k, n-k the same r), hence the same signature: half the range is complete
+TinyHalf == 1..(NN \div 2)
+FewDK == IF NN <= 13 THEN TinyHalf ELSE { 1, 2, NN \div 4, NN \div 2 }
+TinyTrip == { << d, k, m >> : d \in FewDK, k \in FewDK, m \in 1..2 }
 TinyTripA == { << d, k, 1 >> : d \in FewDK, k \in FewDK }
-TinyTripB == { << d, k, 2 >> : d \in { 1, NN \div 2, NN - 1 }, k \in { 2, NN - 2 } }
+TinyTripB == { << d, k, 2 >> : d \in { 1, NN \div 2 }, k \in { 2, (NN \div 2) - 1 } }
 \* sequences whose honest aggregate is re-encoded
-TinySeqs == { << >> } \cup { << a >> : a \in (IF NN <= 13 THEN TinyTrip ELSE TinyTripA) }
+TinySeqs == { << >> } \cup { << a >> : a \in TinyTrip }
             \cup { << a, b >> : a \in TinyTripA, b \in TinyTripB }
             \cup { << a, b, c >> : a \in TinyTripB, b \in TinyTripB, c \in { << 3, 4, 1 >> } }
 \* encodings of the aggregate scalar: j < 1000 is the literal value j; 1000 + i are re-encodings s + K_i * n of the true s
-SEncs == 0..(5 * NN + 1) \cup 1000..1005
+SEncs == 0..(3 * NN + 1) \cup 1000..1005
 SEnc(j, s) ==
   IF j < 1000 THEN FromNat(j)
   ELSE LET room == Div(Sub(Max256, s), N)                       \* the largest K with s + K*n < 2^256
@@ -202,10 +213,11 @@ SEnc(j, s) ==
 TinyXPool == IF NN <= 13 THEN SubgroupXs ELSE { X32(PMulG(FromNat(j))) : j \in { 1, 2, NN \div 2 } }
 TinyBadR == { NBytes(SmallNoLiftX), NBytes(P), NBytes(Max256) }
 TinySPool == IF NN <= 13 THEN 0..(NN + 2) ELSE { 0, 1, 2, NN \div 2, NN - 1, NN, NN + 1 }
-TinyCases ==
+TinyCasesAt(ph) ==
        { << "tvs", t, j >> : t \in TinySeqs, j \in SEncs }
   \cup { << "tv1", rx, s, px, m >> : rx \in TinyXPool \cup TinyBadR, s \in TinySPool, px \in TinyXPool, m \in 1..2 }
   \cup { << "tv2", r1, r2, s, p1, p2 >> : r1 \in TinyXPool, r2 \in TinyXPool \cup { NBytes(SmallNoLiftX) }, s \in 0..NN, p1 \in TinyXPool, p2 \in TinyXPool }
+TinyCases == TinyCasesAt(phase)
 ExpandTiny(c) ==
   CASE c[1] = "tvs" -> LET sq == SeqT(c[2])  n == Len(sq)  agg == AggOf(sq)  s == HaAggS(agg, n)  enc == SEnc(c[3], s)
                        IN HVW(Pks(sq), Msgs(sq), MkAgg(HaAggR(agg, n), NBytes(enc)), B2I(enc = s))
@@ -248,8 +260,6 @@ Expand(c) ==
     [] OTHER -> ExpandTiny(c)
 
 -----------------------------------------------------------------------------
-VARIABLES phase, cur, rec
-vars == << phase, cur, rec >>
 Init == phase = "pick" /\ cur = << >> /\ rec = << >>
 Pick == phase = "pick" /\ \E c \in Cases : cur' = c /\ phase' = "eval" /\ rec' = << >>
 Eval == phase = "eval" /\ LET x == Expand(cur) IN rec' = [ e |-> x.e, in |-> x.in, out |-> Out(x) ]
@@ -257,10 +267,10 @@ Eval == phase = "eval" /\ LET x == Expand(cur) IN rec' = [ e |-> x.e, in |-> x.i
 Next == Pick \/ Eval
 \* design level: what is known by construction (honest aggregates verify; structurally damaged ones do not)
 InvWant == (phase = "done" /\ "want" \in DOMAIN rec.in /\ rec.out.pret = 1) => rec.out.ret = rec.in.want
-\* design level: an aggregation the specification performs with a sufficient buffer yields 32(n+1) bytes that verify
+\* design level: an aggregation the specification performs with a sufficient buffer yields 32(n+1) bytes
+\* (that they verify is InvWant on the "ver" cases and HInvVerify in the history machine)
 InvAggVerifies == (phase = "done" /\ rec.e = "HalfAggAggregate" /\ rec.out.pret = 1 /\ rec.out.ret = 1 /\ rec.in.fill = 170) =>
-                     /\ Len(rec.out.agg) = 32 * (Len(rec.in.pks) + 1)
-                     /\ AggVerify(rec.in.pks, rec.in.msgs, rec.out.agg)
+                     Len(rec.out.agg) = 32 * (Len(rec.in.pks) + 1)
 InvTinyVerify == (phase = "done" /\ rec.e = "HalfAggVerify") => TinyVerifyExact(rec.in, rec.out)
 Emit == phase = "done" => EmitRecord(rec)
 
@@ -270,18 +280,22 @@ Emit == phase = "done" => EmitRecord(rec)
 \* transition is an IncAggregate call record; every complete history additionally yields a Schedule record
 \* (the implementation runs the same composition on its own outputs).
 HistMax == IF Thorough THEN 6 ELSE 5
-HistSeqs == { << "sq", n, v >> : n \in 0..HistMax, v \in 1..2 }
-TinyHistSeqs == { << "tsq", t >> :
+HistSeqsAt(ph) == { << "sq", n, v >> : n \in 0..HistMax, v \in 1..2 }
+HistSeqs == HistSeqsAt(phase)
+TinyHistSeqsAt(ph) == { << "tsq", t >> :
                   t \in { << >> } \cup { << a >> : a \in TinyTrip }
                         \cup { << a, b >> : a \in TinyTripA, b \in TinyTripB }
                         \cup { << a, b, c >> : a \in (IF Thorough THEN TinyTripA ELSE TinyTripB), b \in TinyTripB, c \in TinyTripB } }
+TinyHistSeqs == TinyHistSeqsAt(phase)
 
 HInit == phase = "start" /\ cur = << >> /\ rec = << >>
 HStart == phase = "start" /\ \E c \in HistSeqs : cur' = c /\ phase' = "sign" /\ rec' = << >>
 HSign == /\ phase = "sign"
          /\ LET sq == SeqOf(cur)  x == HA(sq, 32 * (Len(sq) + 1), 170) IN
-            /\ cur' = [ pks |-> Pks(sq), msgs |-> Msgs(sq), sigs |-> Sigs(sq), done |-> 0, agg |-> Zeros(32), hist |-> << >> ]
             /\ rec' = [ e |-> x.e, in |-> x.in, out |-> Out(x) ]
+            \* vfull: does the one-shot aggregate verify?  (decided once per sequence; HInvSame ties every schedule to these bytes)
+            /\ cur' = [ pks |-> Pks(sq), msgs |-> Msgs(sq), sigs |-> Sigs(sq), done |-> 0, agg |-> Zeros(32), hist |-> << >>,
+                        vfull |-> B2I(AggVerify(Pks(sq), Msgs(sq), AggOf(sq))) ]
          /\ phase' = "run"
 HStep == /\ phase = "run"
          /\ \E k \in 0..(Len(cur.pks) - cur.done) :
@@ -296,7 +310,7 @@ HStep == /\ phase = "run"
 HFinish == /\ phase = "run" /\ cur.done = Len(cur.pks) /\ Len(cur.hist) > 0
            /\ LET inp == [ pks |-> cur.pks, msgs |-> cur.msgs, sigs |-> cur.sigs, parts |-> cur.hist,
                            mode |-> Len(cur.hist) % 2, slack |-> 7 * (cur.hist[1] % 3) ]
-              IN rec' = [ e |-> "HalfAggSchedule", in |-> inp, out |-> OutSchedule(inp) ]
+              IN rec' = [ e |-> "HalfAggSchedule", in |-> inp, out |-> OutScheduleV(inp, cur.vfull) ]
            /\ phase' = "fin" /\ cur' = cur
 HNext == HStart \/ HSign \/ HStep \/ HFinish
 \* every schedule, at every point, holds exactly the bytes of the one-shot aggregate of what it has consumed
